@@ -81,6 +81,7 @@ def run_stream_check(pid, tier, cases, case_fn, rule, assumptions, level="explor
     (case_fn returns dict with status, viol=[(key,msg)], optional pkt_hash/info) and writes evidence."""
     ck = vlib.Check(pid, tier, level)
     enc.tools(variant)
+    enc.tools(variant, sched=True)
     res, complete = vlib.pmap_deadline(case_fn, cases, ck.deadline - 25)
     stat, hashes, samples, notok, info = {}, set(), [], [], {}
     for (label, a), o in res:
